@@ -23,7 +23,9 @@ from ..report import Finding
 LEVEL = "other"
 DECORATION_ONLY = {"deref", "from_utf8_lossy", "trim", "trim_end", "trim_start", "trim_end_matches", "trim_start_matches", "trim_matches",
                    "as_str", "as_ref", "borrow", "to_uppercase", "to_lowercase", "to_ascii_uppercase", "to_ascii_lowercase", "as_bytes",
-                   "next", "into_iter", "map_while", "split", "lines", "from_utf8", "unwrap_or_default", "to_string", "into_owned", "clone"}
+                   "next", "into_iter", "map_while", "split", "lines", "unwrap_or_default", "to_string", "into_owned", "clone"}
+# not in the list on purpose: `str::from_utf8` / `String::from_utf8` are partial - a line with one byte that is not UTF-8 has no
+# image at all, although its hex digits may form a frame (the lossy conversion keeps every digit)
 
 
 def _char_loops(facts, rep):
